@@ -303,7 +303,7 @@ def rsaRaw (n e : Nat) (pfx hashed sig : Bytes) : Bool :=
   | none => false
   | some expected => leftPad size em == expected
 
-inductive Verdict | ok | badSig | noKey | missingSigned
+inductive Verdict | ok | badSig | noKey | missingSigned | err
 deriving Repr, DecidableEq
 
 /-- `rsaHash`: DigestInfo prefix per algorithm. -/
@@ -558,5 +558,167 @@ def dsAuthenticates (sup : DSRec → Bool) (dmatch : DKey → Nat → Bytes → 
   sup d && (match hexDecode d.digest with
     | none => false
     | some want => !want.isEmpty && (keys.filter (usableDSCandidate limit d)).any (fun k => dmatch k d.dt want))
+
+/-- the keys `VerifyDSAnchoredWithWork` returns: every offered key some
+supported DS authenticates. -/
+def anchoredKeys (sup : DSRec → Bool) (dmatch : DKey → Nat → Bytes → Bool) (limit : Nat) (keys : List DKey)
+    (dss : List DSRec) : List DKey :=
+  keys.filter (fun k => dss.any (fun d => sup d && (match hexDecode d.digest with
+    | none => false
+    | some want => !want.isEmpty && usableDSCandidate limit d k && dmatch k d.dt want)))
+
+/-! ## `verifySignature`, `cryptoVerify` (signature.go, verify.go) -/
+
+structure VKey where
+  flags : Nat
+  proto : Nat
+  alg : Nat
+  cls : Nat
+  name : Bytes
+  pk : Bytes
+deriving DecidableEq
+
+structure VSig where
+  typ : Nat
+  alg : Nat
+  labels : Nat
+  origTTL : Nat
+  exp : Nat
+  inc : Nat
+  tag : Nat
+  cls : Nat
+  signer : Bytes
+  name : Bytes
+  sigText : Bytes
+deriving DecidableEq
+
+/-- one record of an RRset: presentation owner, type, class, the owner's wire
+labels and the canonical RDATA (packer output). -/
+structure VRec where
+  name : Bytes
+  typ : Nat
+  cls : Nat
+  ownerLabels : List Label
+  canonRd : Bytes
+deriving DecidableEq
+
+/-- what the standard library contributes for one (key, signature, RRset):
+the digest of the signed data (RSA), the verdict of the curve arithmetic
+(`none` = the key octets are not a point), the packed canonical signer. -/
+structure SigOracle where
+  hashed : Bytes := []
+  curve : Option Bool := some false
+  signerWire : Bytes := [0]
+
+def bkeyOf (tagOf : VKey → Nat) (k : VKey) : BKey :=
+  { proto := k.proto, flags := k.flags, alg := k.alg, cls := k.cls, name := k.name, tag := tagOf k }
+
+def bsigOf (s : VSig) : BSig :=
+  { tag := s.tag, alg := s.alg, cls := s.cls, labels := s.labels, typ := s.typ, signer := s.signer, name := s.name }
+
+def hdrsOf (set : List VRec) : List BHdr := set.map (fun r => { cls := r.cls, typ := r.typ, name := r.name })
+
+/-- `verifyECDSASignature` / `verifyEd25519Signature` after hashing. -/
+def verifyCurve (dec : Bytes → Bytes × Bool) (alg : Nat) (curve : Option Bool) (pk sig : Bytes) : Verdict :=
+  if alg = 15 then
+    let p := dec pk
+    if !p.2 || p.1.length != 32 then Verdict.noKey
+    else if sig.length != 64 then Verdict.badSig
+    else if curve == some true then Verdict.ok else Verdict.badSig
+  else
+    let size := if alg = 13 then 32 else 48
+    let p := dec pk
+    if !p.2 then Verdict.noKey
+    else if p.1.length != 2 * size then Verdict.noKey
+    else if sig.length != 2 * size then Verdict.badSig
+    else match curve with
+      | none => Verdict.noKey
+      | some true => Verdict.ok
+      | some false => Verdict.badSig
+
+/-- `verifySignature`. -/
+def verifySignature (std : Nat → Nat → Bytes → Bytes → Bytes → Bool) (dec : Bytes → Bytes × Bool) (L : RSALimits)
+    (tagOf : VKey → Nat) (orc : SigOracle) (k : VKey) (sig : VSig) (set : List VRec) : Verdict :=
+  match signatureBinding (bkeyOf tagOf k) (bsigOf sig) (hdrsOf set) with
+  | Verdict.ok =>
+    match set with
+    | [] => Verdict.missingSigned
+    | r0 :: _ =>
+      match signedData sig.typ r0.cls sig.alg sig.labels sig.origTTL sig.exp sig.inc sig.tag orc.signerWire
+          r0.ownerLabels (set.map (·.canonRd)) with
+      | none => Verdict.err
+      | some _ =>
+        let s := dec sig.sigText
+        if !s.2 then Verdict.badSig
+        else if sig.alg = 5 ∨ sig.alg = 7 ∨ sig.alg = 8 ∨ sig.alg = 10 then verifyRSA std dec L sig.alg k.pk orc.hashed s.1
+        else if sig.alg = 13 ∨ sig.alg = 14 ∨ sig.alg = 15 then verifyCurve dec sig.alg orc.curve k.pk s.1
+        else Verdict.noKey
+  | v => v
+
+/-- `verifySignatureSupported`. -/
+def ownAlg (a : Nat) : Bool := a = 5 || a = 7 || a = 8 || a = 10 || a = 13 || a = 14 || a = 15
+
+/-- `cryptoVerify`: the own verifier for the algorithms it implements, the
+library (`libOK`) for anything else. -/
+def cryptoVerify (std : Nat → Nat → Bytes → Bytes → Bytes → Bool) (dec : Bytes → Bytes × Bool) (L : RSALimits)
+    (tagOf : VKey → Nat) (libOK : Bool) (orc : SigOracle) (k : VKey) (sig : VSig) (set : List VRec) : Verdict :=
+  if ownAlg k.alg then verifySignature std dec L tagOf orc k sig set
+  else if libOK then Verdict.ok else Verdict.err
+
+/-! ## `verifyOneSig`, `VerifyRRSIG` (verify.go) -/
+
+/-- `usableSignatureCandidate`. -/
+def usableSignatureCandidate (tagOf : VKey → Nat) (sig : VSig) (k : VKey) : Bool :=
+  tagOf k == sig.tag && k.alg == sig.alg && k.cls == sig.cls && equalFold k.name sig.signer
+    && k.proto == 3 && k.flags / 256 % 2 == 1
+
+/-- `signatureMatchesRRset`. -/
+def signatureMatchesRRset (sig : VSig) (set : List VRec) : Bool :=
+  match set with
+  | [] => false
+  | h :: _ =>
+    isRRset (hdrsOf set) && h.cls == sig.cls && h.typ == sig.typ && decide (sig.labels ≤ countLabel h.name)
+      && equalFold h.name sig.name && nameInZone (canonicalName h.name) (canonicalName sig.signer)
+
+/-- `verifyOneSig` (`true` = nil error): `cv` is `cryptoVerify`, `inPeriod`
+is `sig.ValidityPeriod(now)`, `supAlg` is `IsSupportedDNSKEYAlgorithm`. -/
+def verifyOneSig (cv : VKey → VSig → List VRec → Verdict) (inPeriod : VSig → Bool) (supAlg : Nat → Bool)
+    (tagOf : VKey → Nat) (keys : List VKey) (set : List VRec) (sig : VSig) : Bool :=
+  let cands := keys.filter (fun k => tagOf k == sig.tag)
+  if cands.isEmpty then false
+  else if !cands.any (fun k => equalFold sig.signer k.name) then false
+  else if !inPeriod sig then false
+  else if !supAlg sig.alg then false
+  else if !signatureMatchesRRset sig set then false
+  else (cands.filter (usableSignatureCandidate tagOf sig)).any (fun k => cv k sig set == Verdict.ok)
+
+structure VMsg where
+  answer : List VRec
+  ns : List VRec
+  sigs : List VSig
+
+def rrKey (r : VRec) : Bytes × Nat × Nat := (lower r.name, r.typ, r.cls)
+def sigKey (s : VSig) : Bytes × Nat × Nat := (lower s.name, s.typ, s.cls)
+
+/-- the records `VerifyRRSIG` has to see signed: the answer section, and the
+authority section without NS records and without records of other zones. -/
+def collected (z : Bytes) (m : VMsg) : List VRec :=
+  m.answer ++ m.ns.filter (fun r => r.typ != 2 && nameInZone (lower r.name) z)
+
+/-- `VerifyRRSIG` (`true` = `(true, nil)`); messages without DNAME synthesis.
+`oneSig set sig` is `verifyOneSig`. -/
+def verifyRRSIG (oneSig : List VRec → VSig → Bool) (nKeys : Nat) (zone : Bytes) (m : VMsg) : Bool :=
+  if nKeys = 0 then false else
+  let z := lower (fqdn zone)
+  if m.answer.any (fun r => !nameInZone (lower r.name) z) then false else
+  let recs := collected z m
+  if recs.isEmpty then true
+  else if m.sigs.isEmpty then false
+  else
+    let sigIdx := m.sigs.filter (fun s => nameInZone (lower s.name) z)
+    recs.all (fun r =>
+      let set := recs.filter (fun x => rrKey x == rrKey r)
+      let sl := sigIdx.filter (fun s => sigKey s == rrKey r)
+      !sl.isEmpty && isRRset (hdrsOf set) && sl.any (fun s => oneSig set s))
 
 end SdnsVerif.Model.DnssecPrim
